@@ -355,6 +355,17 @@ def comprehension(self, n, env, kind):
       self.assume(qforall([k], z3.Implies(cond, k <= wit(kk.t)), patterns=[kk.t]))
       for f in hint.keys_wf(r):
         self.assume(f)
+      # insertion order: when the produced keys are pairwise distinct (and nothing is filtered
+      # out) the dict has one entry per item, in iteration order
+      if not conds:
+        k2 = z3.Int(fresh_name('ck'))
+        kk2 = z3.substitute(kk.t, (k, k2))
+        inr2 = z3.And(k2 >= 0, k2 < it.length)
+        distinct = z3.ForAll([k, k2], z3.Implies(z3.And(inr, inr2, k != k2), kk.t != kk2))
+        KS = hint.keyseq
+        ksr = hint.keys(r)
+        self.assume(z3.Implies(distinct, z3.And(KS.len(ksr) == it.length,
+                                               qforall([k], z3.Implies(inr, KS.get(ksr, k) == kk.t), patterns=[KS.get(ksr, k)]))))
       res = SV(hint, r)
     else:
       raise OutsideSubset(kind)
